@@ -35,6 +35,8 @@ enum Ep {
     AddMinter,
     RemoveMinter,
     Mint,
+    /// not an entry point: 20 ledgers pass (bounded)
+    AdvanceLedger,
 }
 
 #[derive(Clone, Copy, Debug, PartialEq, Eq, Hash, Serialize, Deserialize)]
@@ -55,6 +57,7 @@ struct Act {
 
 #[derive(Clone, Hash)]
 struct Model {
+    advances: u8,
     owner: usize,
     operator: usize,
     window: bool,
@@ -143,6 +146,7 @@ impl C06 {
             Ep::AddMinter => ("add_minter", vec![p[2].to_val()]),
             Ep::RemoveMinter => ("remove_minter", vec![p[2].to_val()]),
             Ep::Mint => ("mint", vec![p[3].to_val(), w.v(1i128)]),
+            Ep::AdvanceLedger => unreachable!(),
         }
     }
 
@@ -157,6 +161,7 @@ impl C06 {
             Ep::AddOperator | Ep::SetTrusted => (m.owner, !m.flag),
             Ep::RemoveOperator | Ep::RemoveTrusted => (m.owner, m.flag),
             Ep::AddMinter | Ep::RemoveMinter => (m.owner, true),
+            Ep::AdvanceLedger => unreachable!(),
             // P0 is a minter since construction (never removed here); P2 iff it was added
             Ep::Mint => (m.owner, (m.owner == 0 || (m.owner == 2 && m.flag))),
         }
@@ -184,12 +189,15 @@ impl Scenario for C06 {
         let twin = self.register(&w, c, &p, &keys, &asset);
         (
             Ctx { w, kind: c, target, twin, p, keys, asset },
-            Model { owner: 0, operator: 1, window: false, flag: false, budget: 3, epoch: 1 },
+            Model { advances: 0, owner: 0, operator: 1, window: false, flag: false, budget: 3, epoch: 1 },
         )
     }
 
     fn actions(&self, ctx: &Ctx, m: &Model) -> Vec<Act> {
         let mut v = vec![];
+        if m.advances < 1 {
+            v.push(Act { ep: Ep::AdvanceLedger, by: By::Nobody });
+        }
         for ep in self.eps(ctx.kind) {
             // payouts, mints and rotations are bounded so that the state space stays finite
             if m.budget == 0 && matches!(ep, Ep::RotateBypass | Ep::RotateBypassOld | Ep::CollectFees | Ep::Refund | Ep::Mint) {
@@ -208,6 +216,14 @@ impl Scenario for C06 {
     fn step(&self, ctx: &Ctx, m: &mut Model, a: &Act, out: &mut StepOut) {
         let w = &ctx.w;
         let p = &ctx.p;
+        if a.ep == Ep::AdvanceLedger {
+            out.kind = "advance";
+            out.accepted = true;
+            w.set_seq(w.seq() + 20);
+            w.set_time(w.now() + 100);
+            m.advances += 1;
+            return;
+        }
         out.kind = match a.ep {
             Ep::TransferOwnership(_) | Ep::SetAdmin(_) | Ep::TransferOperatorship(_) => "role-transfer",
             Ep::Upgrade | Ep::Migrate => "upgrade-migrate",
@@ -265,6 +281,7 @@ impl Scenario for C06 {
             Ep::RemoveOperator | Ep::RemoveTrusted => m.flag = false,
             Ep::AddMinter => m.flag = true,
             Ep::RemoveMinter => m.flag = false,
+            Ep::AdvanceLedger => {}
         }
     }
 
